@@ -4,6 +4,7 @@ import (
 	"fmt"
 	"go/token"
 	"go/types"
+	"reflect"
 	"regexp"
 	"regexp/syntax"
 	"strings"
@@ -1070,6 +1071,28 @@ func init() {
 							cl := isCallNamed(cnd, "(reflect.Value).IsValid")
 							return want && cl != nil
 						})
+						if !ok {
+							// the keys are strings (the map's key kind was compared with reflect.String): every key that
+							// MapKeys enumerates is found again — only NaN keys are not
+							ok = hasGuard(site, func(cnd ssa.Value, want bool) bool {
+								op, x, y, rel := relationOnEdge(cnd, want)
+								if !rel || op != token.EQL {
+									return false
+								}
+								for _, pair := range [][2]ssa.Value{{x, y}, {y, x}} {
+									k, isK := constInt(pair[1])
+									if !isK || k != int64(reflect.String) || !isNamed(pair[1].Type(), "reflect", "Kind") {
+										continue
+									}
+									if cl, isCall := pair[0].(*ssa.Call); isCall && strings.HasSuffix(calleeName(&cl.Call), ".Kind") {
+										if rc, isRC := recvOf(&cl.Call).(*ssa.Call); isRC && strings.HasSuffix(calleeName(&rc.Call), ".Key") {
+											return true
+										}
+									}
+								}
+								return false
+							})
+						}
 						c.check(ok, key("Interface() of a MapIndex result asks IsValid"), p.instrPos(site), "guarded by IsValid()", "Interface() is called on what MapIndex returned without an IsValid() test: a NaN key enumerated by MapKeys is never found again, MapIndex returns the zero Value and Interface() panics (v-for over a map[float64]T with a NaN key) — MapRange, or an IsValid() test, avoids it")
 					case "(reflect.Value).Type":
 						recv := reflectRecv(cc)
